@@ -32,19 +32,66 @@ func weighted(w map[string]int) []string {
 
 var stepKinds = weighted(map[string]int{"acq": 10, "fin": 4, "rel": 7, "rel2": 3, "relf": 2, "cancel": 3, "open": 3})
 
+// with events outside the manager (outside.go) sprinkled in / as the main theme
+var (
+	mixedKinds   = weighted(map[string]int{"acq": 10, "fin": 4, "rel": 7, "rel2": 3, "relf": 2, "cancel": 3, "open": 3, "xclose": 3, "xcon": 2, "xreset": 1, "xdrop": 1, "tick": 1})
+	outsideKinds = weighted(map[string]int{"acq": 10, "fin": 3, "rel": 7, "rel2": 2, "relf": 1, "cancel": 1, "open": 1, "xclose": 6, "xcon": 4, "xreset": 1, "xdrop": 1, "tick": 2})
+	// dial outcomes of the outside part: connections come into being quickly
+	outsideDialModes = []int{1, 1, 1, 1, 1, 1, 0, 0, 0, 2, 3}
+)
+
 func genStep(addrs, threads int) func(t *rapid.T) Step { return genStepN(addrs, threads, 0) }
+
+// genStepK draws from the given table of kinds, which may contain the kinds of
+// outside.go; then releases may be made from several goroutines at once and a
+// dial function may hand back a connection it closed itself.
+func genStepK(addrs, threads, imax int, kinds []string, dials []int) func(t *rapid.T) Step {
+	base := genPlain(addrs, threads, imax)
+	return func(t *rapid.T) Step {
+		k := rapid.SampledFrom(kinds).Draw(t, "k")
+		switch k {
+		case "xclose":
+			return Step{K: k, I: rapid.IntRange(0, 7).Draw(t, "i"), W: rapid.SampledFrom([]int{0, 0, 0, 1, 1, 2}).Draw(t, "w")}
+		case "xcon":
+			return Step{K: k, I: rapid.IntRange(0, 7).Draw(t, "i"), M: rapid.IntRange(0, 2).Draw(t, "m")}
+		case "xreset", "xdrop":
+			return Step{K: k, I: rapid.IntRange(0, 7).Draw(t, "i")}
+		case "tick":
+			return Step{K: k, Dur: rapid.IntRange(0, 3).Draw(t, "dur")}
+		}
+		st := base(t, k)
+		switch st.K {
+		case "acq":
+			st.F = rapid.SampledFrom(dials).Draw(t, "fx")
+		case "fin":
+			st.X = rapid.SampledFrom(oneIn5).Draw(t, "x")
+		case "rel", "rel2", "relf":
+			st.N = rapid.SampledFrom([]int{0, 0, 0, 1, 2, 3}).Draw(t, "n")
+		}
+		return st
+	}
+}
 
 // genStepN: imax > 0 widens the candidate indices (which are taken modulo the
 // number of candidates) so that every one of many candidates can be picked.
 func genStepN(addrs, threads, imax int) func(t *rapid.T) Step {
+	g := genPlain(addrs, threads, imax)
+	return func(t *rapid.T) Step { return g(t, "") }
+}
+
+// genPlain draws a step of kind k (drawn from stepKinds if empty).
+func genPlain(addrs, threads, imax int) func(t *rapid.T, k string) Step {
 	idx := func(t *rapid.T, small int) int {
 		if imax > 0 && rapid.Bool().Draw(t, "wide") {
 			return rapid.IntRange(0, imax).Draw(t, "i")
 		}
 		return rapid.IntRange(0, small).Draw(t, "i")
 	}
-	return func(t *rapid.T) Step {
-		st := Step{K: rapid.SampledFrom(stepKinds).Draw(t, "k")}
+	return func(t *rapid.T, k string) Step {
+		st := Step{K: k}
+		if k == "" {
+			st.K = rapid.SampledFrom(stepKinds).Draw(t, "k")
+		}
 		switch st.K {
 		case "acq":
 			st.T = rapid.IntRange(0, threads-1).Draw(t, "t")
@@ -104,11 +151,52 @@ func genScenario(t *rapid.T) *Scenario {
 	}
 	g := rapid.Custom(genStep(sc.Addrs, sc.Threads))
 	// three segments: rapid's slice lengths are biased towards the minimum
+	if rapid.SampledFrom(oneIn3).Draw(t, "outside") {
+		// things happen to handed-out connections outside the manager
+		g = rapid.Custom(genStepK(sc.Addrs, sc.Threads, 0, mixedKinds, append(append([]int(nil), dialModes...), 3)))
+	}
 	sc.Steps = rapid.SliceOfN(g, 1, 14).Draw(t, "steps")
 	sc.Steps = append(sc.Steps, rapid.SliceOfN(g, 0, 14).Draw(t, "more1")...)
 	sc.Steps = append(sc.Steps, rapid.SliceOfN(g, 0, 14).Draw(t, "more2")...)
 	sc.Names = genNames(t, sc.Addrs)
 	return sc
+}
+
+// genOutsideScenario: few addresses and threads, connections that come into
+// being quickly, and the steps of outside.go as the main theme: holders that
+// close the connection they were handed, connectivity changes, virtual time.
+func genOutsideScenario(t *rapid.T) *Scenario {
+	sc := &Scenario{
+		Addrs:   rapid.SampledFrom([]int{1, 1, 2, 2, 3}).Draw(t, "addrs"),
+		Threads: rapid.IntRange(2, 6).Draw(t, "threads"),
+	}
+	g := rapid.Custom(genStepK(sc.Addrs, sc.Threads, 0, outsideKinds, outsideDialModes))
+	sc.Steps = rapid.SliceOfN(g, 2, 14).Draw(t, "steps")
+	sc.Steps = append(sc.Steps, rapid.SliceOfN(g, 0, 14).Draw(t, "more1")...)
+	sc.Steps = append(sc.Steps, rapid.SliceOfN(g, 0, 14).Draw(t, "more2")...)
+	if rapid.SampledFrom(oneIn3).Draw(t, "spelled") {
+		sc.Names = genNames(t, sc.Addrs)
+	}
+	return sc
+}
+
+// TestC16Outside: the stepwise engine with things that happen to a handed-out
+// connection outside the manager (see outside.go).
+func TestC16Outside(t *testing.T) {
+	if !vstat.Enabled("C16") {
+		t.Skip()
+	}
+	rec := vstat.New("C16", "outside")
+	rec.RunRapid(t, func(rt *rapid.T) {
+		sc := genOutsideScenario(rt)
+		rec.Current(sc)
+		st, err := runCase(t, sc)
+		rec.Case(sc, st.nontrivial, st.labelList()...)
+		if err != nil {
+			rt.Logf("%s", rec.Fail(sc, classOf(err), "%v", err))
+			rt.Fatalf("property C16 violated: %s", classOf(err))
+		}
+	})
 }
 
 // --- known open findings -----------------------------------------------------------
